@@ -3,6 +3,7 @@ import json
 import common
 
 PROPS = "RotoV.Props.C18"
+PROPS_USE = "RotoV.Props.C18Use"
 
 
 def search(ctx):
@@ -10,15 +11,27 @@ def search(ctx):
     # bigger random run.  The driver does not import Generated/FlattenUse.lean, so it builds (and the
     # fixtures decide with a concrete use declaration) even when that extraction or its theorem broke.
     ctx.lake_build(["rotov-driver"])
+    known = common.load_known(ctx.pid)
+    if any(common.match_known(known, v) is None for v in ctx.impl_violations):
+        return  # the quick run already holds a concrete failing input on the real code
     if ctx.build_harness("c18"):
         ctx.harness("c18", ["run", ctx.seed + 7919, "thorough"], timeout=3000, name="search:c18")
 
 
 def run(ctx):
     ctx.extract(["keywords", "flattenuse"])
-    ok = ctx.prove(PROPS, extra_modules=["RotoV.Lemmas.Registration", "RotoV.Model.Registration",
-                                         "RotoV.Lemmas.UseTree", "RotoV.Model.UseTree"])
-    if not ok:
+    # two theorem modules, so that a change to the macro breaks exactly the T5 obligations and a change to the
+    # lexer's keyword table exactly the others
+    ok1 = ctx.prove(PROPS, extra_modules=["RotoV.Lemmas.Registration", "RotoV.Model.Registration"])
+    first = {k: ctx.coverage.get(k) for k in ("theorems", "nonvacuity_examples", "axioms")}
+    ok2 = ctx.prove(PROPS_USE, extra_modules=["RotoV.Lemmas.UseTree", "RotoV.Model.UseTree"])
+    if first["theorems"] and ok2:  # prove() overwrites these: report both modules
+        ctx.coverage["theorems"] = first["theorems"] + ctx.coverage["theorems"]
+        ctx.coverage["nonvacuity_examples"] += first["nonvacuity_examples"]
+        ctx.coverage["axioms"] = {**first["axioms"], **ctx.coverage["axioms"]}
+    elif first["theorems"]:
+        ctx.coverage.update(first)
+    if not (ok1 and ok2):
         ctx.lake_build(["rotov-driver"])
     if ctx.build_harness("c18"):
         ctx.harness("c18", ["run", ctx.seed, ctx.tier], timeout=3000)
